@@ -50,6 +50,7 @@ type VC struct {
 	strlits map[string]int
 	oblSeq  map[string]int
 	inQuant int
+	firedSites map[string]bool
 }
 
 func newVC(e *Engine, fnKey string) *VC {
@@ -281,7 +282,7 @@ func (vc *VC) freshVal(typ types.Type, hint string) Val {
 		return sv
 	case *types.Slice:
 		arr, off, ln, cp := vc.fresh(hint+"_arr", SInt), vc.fresh(hint+"_off", SInt), vc.fresh(hint+"_len", SInt), vc.fresh(hint+"_cap", SInt)
-		vc.assert(T{fmt.Sprintf("(and (<= 0 %s) (<= 0 %s) (<= 0 %s) (<= %s %s) (<= %s 4611686018427387904))", arr.S, off.S, ln.S, ln.S, cp.S, cp.S), SBool})
+		vc.assert(T{fmt.Sprintf("(and (<= 0 %s) (<= 0 %s) (<= 0 %s) (<= %s %s) (<= %s 4611686018427387904) (=> (= %s 0) (= %s 0)))", arr.S, off.S, ln.S, ln.S, cp.S, cp.S, arr.S, cp.S), SBool})
 		return &SliceV{Arr: arr, Off: off, Len: ln, Cap: cp, Elem: u.Elem()}
 	case *types.Tuple:
 		tv := &TupleV{}
@@ -632,6 +633,7 @@ type Frame struct {
 	frame    *frameSpec
 	loopKeys map[*ssa.BasicBlock][]string
 	loopRidx map[*ssa.BasicBlock][]*Cell
+	siteOrd  map[ssa.Instruction]int
 }
 
 type Exec struct {
@@ -887,7 +889,7 @@ func (fr *Frame) loopHeader(h *ssa.BasicBlock, cond T, st *State) (T, *State) {
 			if c.Name == "rangeindex" {
 				if v, ok := pre.cells[c].(T); ok {
 					ridx = append(ridx, c)
-					vc.oblige("inv-init", fmt.Sprintf("loop%d.rangeindex", ord), "implicit: -1 <= rangeindex", nil, fr.headerPosStr(h), cond, Le(I(-1), v))
+					vc.oblige("inv-init", fmt.Sprintf("loop%d.rangeindex", ord), "implicit: -1 <= rangeindex <= 2^62", nil, fr.headerPosStr(h), cond, And(Le(I(-1), v), Le(v, IStr("4611686018427387904"))))
 				}
 			}
 		}
@@ -950,7 +952,7 @@ func (fr *Frame) loopHeader(h *ssa.BasicBlock, cond T, st *State) (T, *State) {
 	}
 	for _, c := range ridx {
 		if v, ok := st.cells[c].(T); ok {
-			vc.assert(Imp(cond, Le(I(-1), v)))
+			vc.assert(Imp(cond, And(Le(I(-1), v), Le(v, IStr("4611686018427387904")))))
 		}
 	}
 	ev2 := fr.evaluator(st)
@@ -975,6 +977,12 @@ func globSortGuess(pre *State, rec *writeRec, k string, vc *VC) Sort {
 	}
 	if s, ok := vc.eng.globSorts[k]; ok {
 		return s
+	}
+	if s, ok := vc.eng.cs.Ghosts[k]; ok {
+		return s
+	}
+	if k == "$alloc" {
+		return SInt
 	}
 	return SArrII
 }
@@ -1012,7 +1020,7 @@ func (fr *Frame) backEdge(h *ssa.BasicBlock, cond T, st *State) {
 	}
 	for _, c := range fr.loopRidx[h] {
 		if v, ok := st.cells[c].(T); ok {
-			vc.oblige("inv-pres", fmt.Sprintf("loop%d.rangeindex", ord), "implicit: -1 <= rangeindex", nil, fr.headerPosStr(h), cond, Le(I(-1), v))
+			vc.oblige("inv-pres", fmt.Sprintf("loop%d.rangeindex", ord), "implicit: -1 <= rangeindex <= 2^62", nil, fr.headerPosStr(h), cond, And(Le(I(-1), v), Le(v, IStr("4611686018427387904"))))
 		}
 	}
 	if lc == nil {
